@@ -184,7 +184,6 @@ SEEDED_LIMITS = {
     'C11-m10': ('C11', 0, 'LIMIT: the n-D Euclidean bound reads the series through conditional `shorter` / `longer` selections; undecided'),
     'C15-m10': ('C15', 0, 'LIMIT: the Euclidean bound restructured around `shorter` / `longer` pointers; undecided'),
     'C08-m10': ('C08', 0, 'LIMIT: no rule bounds the positions dtw_wps_negativize touches (the dual comparison has no verdict once one copy is restructured)'),
-    'C18-m9': ('C18', 0, 'LIMIT: no rule states the band of the window mask in LocalConcurrences._reset_wp_mask'),
     'C18-m10': ('C18', 0, 'LIMIT: dtw_wps_loc with region D as a closed form is not comparable region by region; undecided'),
     'C07-m9': ('C07', 2, 'LIMIT: the pair plan written as comprehensions is not recognised; the check stops with an ANALYSIS-ERROR (no verdict)'),
     'C19-m9': ('C19', 2, 'LIMIT: two methods merged into one arm of the dispatch are not recognised; the check stops with an ANALYSIS-ERROR (no verdict)'),
